@@ -213,11 +213,106 @@ func (c *c18Run) onePoints(kind c18PointKind, opt c18Opt, word []int) {
 	r.Sample(func() any { return map[string]any{"case": cas, "exposed": strings.Split(canon[2], "\n")} })
 }
 
+// twoScopes: the same instrument name (same kind, same unit) in two instrumentation scopes, in
+// the order the enumeration decides, with every pair of descriptions over {"", x, y}. Prometheus
+// allows one help text per family; whatever the exporter makes of the two descriptions, the
+// registry has to accept the result and both series (told apart by otel_scope_name) carry the
+// aggregated values.
+func (c *c18Run) twoScopes(kind c18PointKind, descA, descB string) {
+	r := c.r
+	dcls := func(d string) string {
+		if d == "" {
+			return "empty"
+		}
+		return "non-empty"
+	}
+	class := "first description " + dcls(descA) + ", second " + dcls(descB)
+	if descA == descB {
+		class = "equal descriptions (" + dcls(descA) + ")"
+	}
+	cas := map[string]any{"kind": kind.id, "scopes_in_order": []string{"sa", "sb"}, "instrument_name": "m", "descriptions_in_order": []string{descA, descB}}
+	saved := model.NameValidationScheme              //nolint:staticcheck
+	model.NameValidationScheme = model.UTF8Validation //nolint:staticcheck
+	defer func() { model.NameValidationScheme = saved }() //nolint:staticcheck
+	c.handled = c.handled[:0]
+	enum.Guard("process-death|scrape|two-scopes|"+kind.id, cas, r.Here())
+	defer enum.Unguard()
+
+	mk := func(scope, desc string, letter int) metricdata.ScopeMetrics {
+		agg := kind.letters[letter].add(kind.empty(), attribute.NewSet(attribute.String("k", "v")))
+		return metricdata.ScopeMetrics{Scope: instrumentation.Scope{Name: scope}, Metrics: []metricdata.Metrics{{Name: "m", Description: desc, Data: agg}}}
+	}
+	prod := &c18Producer{sm: []metricdata.ScopeMetrics{mk("sa", descA, 0), mk("sb", descB, 2)}}
+	reg := &capturingRegisterer{Registry: prometheus.NewRegistry()}
+	exp, err := New(WithRegisterer(reg), WithProducer(prod))
+	if err != nil || reg.got == nil {
+		r.FailHere("new|exporter construction failed", cas, "New: %v", err)
+		return
+	}
+	mp := metric.NewMeterProvider(metric.WithReader(exp), metric.WithResource(resource.NewSchemaless(c18ResourceKVs...)))
+	defer func() { _ = mp.Shutdown(context.Background()) }()
+	want := map[string]refValue{}
+	for _, sm := range prod.sm {
+		pts, _, err := refPoints(sm.Metrics[0])
+		if err != nil || len(pts) != 1 {
+			r.FailHere("harness|reference points", cas, "%v", err)
+			return
+		}
+		want[sm.Scope.Name] = pts[0].val
+	}
+	for i := 0; i < 2; i++ {
+		r.Eval()
+		fams, err := reg.Gather()
+		what := []string{"first scrape", "second scrape"}[i]
+		if err != nil {
+			r.FailHere("two-scopes|gather-error|"+kind.id+"|"+class, cas, "%s: Gather returned %v (errors handled by the exporter: %q)", what, err, c.handled)
+			return
+		}
+		got := map[string]refValue{}
+		helps := map[string]bool{}
+		for _, f := range fams {
+			if f.GetName() == targetInfoMetricName || f.GetName() == scopeInfoMetricName {
+				continue
+			}
+			helps[f.GetHelp()] = true
+			for _, m := range f.Metric {
+				scope := ""
+				for _, lp := range m.Label {
+					if lp.GetName() == "otel_scope_name" {
+						scope = lp.GetValue()
+					}
+				}
+				if _, dup := got[scope]; dup {
+					r.FailHere("two-scopes|series twice|"+kind.id, cas, "%s: two series for scope %q", what, scope)
+				}
+				_, got[scope] = actualValue(f, m)
+			}
+		}
+		for _, sc := range []string{"sa", "sb"} {
+			g, ok := got[sc]
+			w := want[sc]
+			if !ok {
+				r.FailHere("two-scopes|series missing|"+kind.id+"|"+class, cas, "%s: no series of scope %s (errors handled by the exporter: %q)", what, sc, c.handled)
+				continue
+			}
+			if g.typ != w.typ || !sameFloat(g.value, w.value) || g.count != w.count || !sameFloat(g.sum, w.sum) || g.buckets != w.buckets {
+				r.FailHere("two-scopes|value|"+kind.id, cas, "%s: scope %s exposed as %+v, aggregated %+v", what, sc, g, w)
+			}
+		}
+		if len(got) != 2 {
+			r.FailHere("two-scopes|unexpected series|"+kind.id, cas, "%s: %d series for two instruments", what, len(got))
+		}
+		r.Outcome(fmt.Sprint(kind.id, class, len(helps)))
+	}
+	r.Sample(func() any { return cas })
+}
+
 func TestVerifC18Points(t *testing.T) {
 	var jobs []string
 	for _, k := range c18PointKinds {
 		jobs = append(jobs, "points/"+k.id)
 	}
+	jobs = append(jobs, "two-scopes")
 	enum.Jobs(jobs, func(job string) {
 		r := enum.Start("C18", "points")
 		defer r.Finish()
@@ -231,6 +326,20 @@ func TestVerifC18Points(t *testing.T) {
 		maxLen := enum.Pick(r, 3, 4)
 		r.Bound("points_max_data_points_per_metric", maxLen)
 		r.Section(job)
+		if job == "two-scopes" {
+			descs := []string{"", "x", "y"}
+			r.Bound("two_scopes_descriptions", descs)
+			for _, kind := range c18PointKinds {
+				for _, a := range descs {
+					for _, b := range descs {
+						if r.Want() {
+							run.twoScopes(kind, a, b)
+						}
+					}
+				}
+			}
+			return
+		}
 		for _, kind := range c18PointKinds {
 			if "points/"+kind.id != job {
 				continue
